@@ -62,8 +62,8 @@ Definition run_unbuf (fx : bool) (fuel : nat) (ps : list (list op)) : list event
                           (u_init (progs_fun ps) 1000) (tids n) in
   (rev (u_log s), filter (fun t => negb (match u_prog s t with [] => true | _ => false end)) (tids n), ex).
 
-Definition run_buf (mcap : Z) (fuel : nat) (ps : list (list op)) : list event * list tid * bool :=
+Definition run_buf (fx : bool) (mcap : Z) (fuel : nat) (ps : list (list op)) : list event * list tid * bool :=
   let n := length ps in
-  let '(s, _, ex) := coop bst (bstep mcap) b_yielding b_wk (fun s => set_b_wk s []) fuel
+  let '(s, _, ex) := coop bst (bstep fx mcap) b_yielding b_wk (fun s => set_b_wk s []) fuel
                           (b_init (progs_fun ps) 1000) (tids n) in
   (rev (b_log s), filter (fun t => negb (match b_prog s t with [] => true | _ => false end)) (tids n), ex).
